@@ -94,15 +94,61 @@ def check_idna_laws(line):
             LAW_VIOLATIONS.append({"law": b, "answer": line, "input": runes, "output": ob.decode("latin-1"), "error": err})
 
 
-def idna_answers(keys):
+def _ask_idna(keys):
     ans = {}
-    keys = list(keys)
     for i in range(0, len(keys), 200):
         p = subprocess.run([HARNESS, "idna"] + keys[i:i + 200], stdout=subprocess.PIPE, check=True)
         for l in p.stdout.decode().split("\n"):
             if l:
                 ans[l.split("=")[0]] = l
-                check_idna_laws(l)
+    return ans
+
+
+# ---- two more laws, assumed only by Props/C09d.lean (Proofs/HostCase.lean): L5 the library is ASCII-case-insensitive (output and
+# error flag), L6 its output has no upper-case ASCII letter. Checked on every answer: the library is asked again for the
+# lower-cased and the upper-cased spelling of every query of the run.
+LAW_C09_CHECKED = [0]
+LAW_C09_VIOLATIONS = []
+
+
+def _ascii_case(b, up):
+    return bytes((c - 32 if (up and 97 <= c <= 122) else c + 32 if (not up and 65 <= c <= 90) else c) for c in b)
+
+
+def check_case_laws(ans):
+    need = {}
+    for k, l in ans.items():
+        try:
+            sb = bytes.fromhex(k[1:])
+        except Exception:
+            continue
+        for v in (_ascii_case(sb, False), _ascii_case(sb, True)):
+            if v != sb:
+                need.setdefault("x" + v.hex(), []).append(k)
+    extra = _ask_idna([k for k in need if k not in ans])
+    for vk, srcs in need.items():
+        la = ans.get(vk) or extra.get(vk)
+        if la is None:
+            continue
+        for k in srcs:
+            LAW_C09_CHECKED[0] += 1
+            if la.split("=")[1:] != ans[k].split("=")[1:] and len(LAW_C09_VIOLATIONS) < 20:
+                LAW_C09_VIOLATIONS.append({"law": "L5 case_insensitive", "answer": ans[k], "variant_answer": la})
+    for k, l in ans.items():
+        try:
+            ob = bytes.fromhex(l.split("=")[1][1:])
+        except Exception:
+            continue
+        if any(65 <= c <= 90 for c in ob) and len(LAW_C09_VIOLATIONS) < 20:
+            LAW_C09_VIOLATIONS.append({"law": "L6 out_lower", "answer": l})
+
+
+def idna_answers(keys):
+    ans = _ask_idna(list(keys))
+    for l in ans.values():
+        check_idna_laws(l)
+    if os.environ.get("VERIF_CASE_LAWS"):
+        check_case_laws(ans)
     return ans
 
 
